@@ -20,17 +20,18 @@ def match_term(defn, d):
 
 
 class DispatcherTask(Task):
-    def __init__(self, pgn, group):
+    def __init__(self, pgn, group, prop='C08'):
         self.pgn = pgn
         self.group = group
-        self.name = f'C08:decode_pgn_{pgn}'
+        self.prop = prop
+        self.name = f'{prop}:decode_pgn_{pgn}'
 
     def run(self, tier):
         out = {'results': [], 'functions': [], 'notes': [], 'bounded': []}
         r = repo()
         fname = f'decode_pgn_{self.pgn}'
         info = r.func('pgns.' + fname)
-        base = f'C08/pgns.{fname}'
+        base = f'{self.prop}/pgns.{fname}'
         if info is None:
             out['results'].append({'obligation': f'{base}/exists', 'kind': 'ensures', 'status': 'refuted', 'backend': 'frontend', 'seconds': 0.0,
                                    'reason': 'no dispatcher', 'replay': {'confirmed': True, 'observed': f'no {fname}'}})
